@@ -117,7 +117,7 @@ CHECKS = {
         "timeout": {"quick": 1200, "thorough": 14000},
     },
     "C05": {
-        "scenarios": [("C05-probe", "vsim")],
+        "scenarios": [("C05-probe", "vsim"), ("C05-reflect", "vsim")],
         "rule": "per case 12 (quick) / 30 (thorough) probes from a credential-less address against a server with a concurrent genuine "
                 "user: random strings of length 0..200 / 1499 / 1500 / 4096 / 70000, strict prefixes of a never-delivered genuine first "
                 "segment, single-bit flips in its authenticated regions, well-formed handshakes under a wrong password, an unregistered "
